@@ -686,6 +686,7 @@ def monitor(case, impl, sh):
                 fail("C05", "ThinArc length field at %d overlaps header/slice or is misaligned" % lf)
     if "cont" in impl and impl["cont"] != "1":
         fail("C05", "contents read back through the handle differ from what the constructor was given")
+        fail("C06", "contents read back through the handle differ from what the constructor was given (header/elements written at the wrong place or in the wrong number)")
 
     # C11: addresses, round trips ------------------------------------------------------------------
     if kind in ("sized", "hs", "slice", "str"):
@@ -918,6 +919,25 @@ def c12_pairs(ctx, binpath=None, sh=None):
     st["ordered_pairs"] = len({(c.meta["A"], c.meta["B"]) for c in cases if c.kind == "union"})
     st["samples"] = [{"case": r.cases[i].line, "impl": r.impl_raw[i]} for i in range(0, min(len(cases), 3))]
     return (not r.mismatch and not r.failures), st, failures
+
+
+def contents_pass(ctx):
+    """For c06.py: the constructors over the whole shape matrix (padding between header and slice,
+    over-aligned and odd-sized elements, empty slices), contents read back.  Returns
+    (ok, stats, failures-as-text) — a failure here is a concrete failing input."""
+    results, bins = run_all(ctx, ["dbg"] if not ctx.thorough() else ["dbg-full", "rel-o0"],
+                            THOROUGH_DENSITY if ctx.thorough() else {}, with_children=False)
+    mism, fails, known = _pick(results, "C06")
+    crashed = [(r, i) for r in results for i, im in enumerate(r.impl) if im.get("st", "").startswith("crash") and r.cases[i].meta.get("ctor")]
+    texts = []
+    fails.sort(key=lambda x: case_weight(x[0].cases[x[1]]))
+    for (r, i, fl) in fails[:5]:
+        texts.append(describe(r, i, r.sh) + "\nobserved: " + fl["what"])
+    for (r, i) in crashed[:3]:
+        texts.append(describe(r, i, r.sh) + "\nobserved: the process died inside this constructor / release case")
+    st = {"cases": sum(len(r.cases) for r in results), "constructor_cases": sum(1 for r in results for c in r.cases if c.meta.get("ctor")),
+          "content_failures": len(fails), "crashes": len(crashed)}
+    return (not fails and not crashed), st, texts
 
 
 # ------------------------------------------------------------------------------------------------
